@@ -216,21 +216,77 @@ class Tables:
 
 
 # ------------------------------------------------------------------------------------------------ real leaf functions
+NUM_PROBE = ['1', '0', '-3', '7', 'x', '1.5', '2K', '10']
+PATH_PROBE = ['/nonexistent/verif-probe']
+BOOL_PROBE = [True, False, 'true', 'false', 1, 'x']
+LEVEL_PROBE = ['debug', 'INFO', 'warning', 'nonsense', 10]
+PRIVATE_BEHAVIOUR = {}      # name → behaviour on its probe, filled from the clean names when they exist (see _record_private_behaviour)
+
+
+def _record_private_behaviour():
+    from replicat.utils import cli, config
+    table = {'_natural_number': (cli, NUM_PROBE), '_rate_limit': (cli, NUM_PROBE), '_read_bytes': (cli, PATH_PROBE),
+             '_check_natural_number': (config, NUM_PROBE), '_check_boolean': (config, BOOL_PROBE), '_convert_log_level': (config, LEVEL_PROBE)}
+    # expected behaviours, written down from the documented semantics (so that they are available even when the name is gone)
+    PRIVATE_BEHAVIOUR.update({
+        '_check_boolean': [('ok', 'True'), ('ok', 'False'), ('ok', 'True'), ('ok', 'False'), ('raise', 'ValueError'), ('raise', 'ValueError')],
+        '_check_natural_number': [('ok', '1'), ('raise', 'ValueError'), ('raise', 'ValueError'), ('ok', '7'), ('raise', 'ValueError'), ('raise', 'ValueError'), ('raise', 'ValueError'), ('ok', '10')],
+        '_convert_log_level': [('ok', '10'), ('ok', '20'), ('ok', '30'), ('raise', 'ValueError'), ('raise', 'AttributeError')],
+        '_natural_number': [('ok', '1'), ('raise', 'ValueError'), ('raise', 'ValueError'), ('ok', '7'), ('raise', 'ValueError'), ('raise', 'ValueError'), ('raise', 'ValueError'), ('ok', '10')],
+        '_rate_limit': [('ok', '1'), ('raise', 'ValueError'), ('raise', 'ValueError'), ('ok', '7'), ('raise', 'ValueError'), ('ok', '1'), ('ok', '2000'), ('ok', '10')],
+        '_read_bytes': [('raise', 'FileNotFoundError')],
+    })
+    for name, (mod, probe) in table.items():
+        f = getattr(mod, name, None)
+        if f is None:
+            continue
+        out = []
+        for x in probe:
+            try:
+                out.append(('ok', repr(f(x))))
+            except BaseException as e:  # noqa: BLE001
+                out.append(('raise', type(e).__name__))
+        PRIVATE_BEHAVIOUR.setdefault(name, out)
+
+
 class Real:
     """the REAL type functions / validators, by the names used in the generated table"""
+
 
     def __init__(self):
         import logging
         import replicat.utils as utils
         from replicat.utils import cli, config
         logging.getLogger('replicat').setLevel(logging.CRITICAL)     # parse_repository logs every rejected text
+        _record_private_behaviour()
         self.utils, self.cli, self.config = utils, cli, config
+        def private(mod, name, probe):
+            # a private helper may be renamed by a harmless refactor: fall back to the module-level function that behaves like it
+            # on the probe inputs (text → value or exception class); None = this type function is simply not compared
+            f = getattr(mod, name, None)
+            if f is not None:
+                return f
+            import types
+
+            def beh(g):
+                out = []
+                for x in probe:
+                    try:
+                        out.append(('ok', repr(g(x))))
+                    except BaseException as e:  # noqa: BLE001
+                        out.append(('raise', type(e).__name__))
+                return out
+            want = PRIVATE_BEHAVIOUR.get(name)
+            for g in vars(mod).values():
+                if isinstance(g, types.FunctionType) and g.__module__ == mod.__name__ and want is not None and beh(g) == want:
+                    return g
+            return None
         self.by_name = {
-            'parseRepository': utils.parse_repository, 'path': Path, 'naturalNumberCli': cli._natural_number,
-            'naturalNumberCfg': config._check_natural_number, 'readBytesCli': cli._read_bytes,
-            'readBytesCfg': config._read_bytes, 'fsencode': os.fsencode, 'strEncode': str.encode,
-            'environb': os.fsencode, 'checkBoolean': config._check_boolean, 'guessType': utils.guess_type,
-            'convertLogLevel': config._convert_log_level, 'rateLimit': cli._rate_limit, 'none': (lambda x: x),
+            'parseRepository': utils.parse_repository, 'path': Path, 'naturalNumberCli': private(cli, '_natural_number', NUM_PROBE),
+            'naturalNumberCfg': private(config, '_check_natural_number', NUM_PROBE), 'readBytesCli': private(cli, '_read_bytes', PATH_PROBE),
+            'readBytesCfg': private(config, '_read_bytes', PATH_PROBE), 'fsencode': os.fsencode, 'strEncode': str.encode,
+            'environb': os.fsencode, 'checkBoolean': private(config, '_check_boolean', BOOL_PROBE), 'guessType': utils.guess_type,
+            'convertLogLevel': private(config, '_convert_log_level', LEVEL_PROBE), 'rateLimit': private(cli, '_rate_limit', NUM_PROBE), 'none': (lambda x: x),
         }
         self.columns = {'list-snapshots': utils.SnapshotListColumn.parse_list, 'list-files': utils.FileListColumn.parse_list}
 
